@@ -8,6 +8,7 @@ from ..arith import Iv, U32
 from . import common
 
 LEVEL = 'proof'
+PRIMARY_PROFILE = 'release'
 SCALE = 1000
 DEFAULT_PPB = 1000
 
@@ -71,7 +72,7 @@ def analyse_value(v, conds, asserts):
 
 
 def run(ctx, chk):
-    prof = 'release'
+    prof = getattr(ctx, 'force_profile', 'release')
     fb = ctx.facts(prof)
     chk.explanation = ('On the release-profile MIR of the daemon binary: every path from option parsing to thread_manager::run '
                        'hands over either the default 1000 or rate x 1000 computed so that it cannot leave u32 without ending '
@@ -83,8 +84,9 @@ def run(ctx, chk):
         return
     b = mains[0]
     chk.saw(b)
-    chk.ob('C19.R1', 'config:release-overflow-checks-off', b.crate.overflow_checks is False, b.where(0),
-           'analysed configuration has overflow-checks=%s (release: off)' % b.crate.overflow_checks, nontrivial=False)
+    if prof == 'release':
+        chk.ob('C19.R1', 'config:release-overflow-checks-off', b.crate.overflow_checks is False, b.where(0),
+               'analysed configuration has overflow-checks=%s (release: off)' % b.crate.overflow_checks, nontrivial=False)
     eng = common.mk_engine(fb, no_inline=lambda x: x.crate.kind != 'bin')
     paths = [p for p in eng.run(b) if p.kind != 'unreachable']
     chk.analysed['paths'] += len(paths)
